@@ -14,14 +14,26 @@ Three mechanisms (docs/C14.md):
     secret operands marked undefined; every "Conditional jump or move depends on uninitialised
     value(s)" is a violation (except the accept/reject branch of beltKWPUnwrap on the verdict).
 """
-import os, re, subprocess, sys, importlib
+import os, re, subprocess, sys, importlib, math
 import vcommon
 from vcommon import VERIF
 
-PROPS = ["Bee2V/C14/Props.lean", "Bee2V/Gen/C14Obl.lean"]
+PROPS = ["Bee2V/C14/Props.lean", "Bee2V/Gen/C14Obl.lean", "Bee2V/Gen/C14Obl32.lean"]
 if os.path.exists(os.path.join(vcommon.LEAN, "Bee2V/C14/PropsCmp.lean")):
     PROPS.append("Bee2V/C14/PropsCmp.lean")
-B = 1 << 64
+WB = 64          # bits per machine word of the configuration the cases are generated for
+B = 1 << WB
+
+
+def setw(wb):
+    """select the word size (64: default build; 32: -U__SIZEOF_INT128__) for all generators below"""
+    global WB, B
+    WB, B = wb, 1 << wb
+
+
+def opn(name):
+    """op names of word-size specific lines carry the word size (ir/sf/trace/stepv, ww family)"""
+    return name if WB == 64 else name + "32"
 
 
 def _x():
@@ -29,11 +41,19 @@ def _x():
     return importlib.reload(x_c14_ir)
 
 
+GEN32 = {}
+
+
 def regen(ctx):
+    """both word-size configurations: B_PER_W = 64 (default) and B_PER_W = 32 (-U__SIZEOF_INT128__)"""
     x = _x()
     text, W, funs, roots, safes = x.generate()
     ctx.regen("Bee2V/Gen/C14IR.lean", text)
     ctx.regen("Bee2V/Gen/C14Obl.lean", x.generate_obl(funs))
+    t32, W32, funs32, roots32, safes32 = x.generate(extra=x.EXTRA32, module="C14IR32")
+    ctx.regen("Bee2V/Gen/C14IR32.lean", t32)
+    ctx.regen("Bee2V/Gen/C14Obl32.lean", x.generate_obl(funs32, "C14IR32", "Obl32"))
+    GEN32.update({"W": W32, "funs": funs32})
     return x, W, funs, roots, safes
 
 
@@ -44,7 +64,7 @@ def le(v, nbytes):
 
 
 def Wd(v, n):
-    return le(v, 8 * n)
+    return le(v, (WB // 8) * n)
 
 
 def hexs(bs):
@@ -54,22 +74,22 @@ def hexs(bs):
 # ------------------------------------------------------------------------------ operand classes
 
 def rnd_words(rng, n):
-    return rng.getrandbits(64 * n) if n else 0
+    return rng.getrandbits(WB * n) if n else 0
 
 
 def moduli(rng, n, odd=False, crandall=False, k=3):
     """moduli of exactly n words (top word != 0), boundary-heavy"""
-    Bn = 1 << (64 * n)
+    Bn = 1 << (WB * n)
     out = []
     if crandall:
-        cs = [1, 3, B - 1, (1 << 63) + 1, rng.getrandbits(64) | 1, rng.getrandbits(20) | 1]
+        cs = [1, 3, B - 1, (1 << (WB - 1)) + 1, rng.getrandbits(WB) | 1, rng.getrandbits(20) | 1]
         return [Bn - c for c in rng.sample(cs, min(k, len(cs)))]
-    cand = [Bn - 1, Bn - 3, (1 << (64 * n - 1)) + 1, (1 << (64 * (n - 1))) + (1 if (odd or n == 1) else 0) + (2 if n == 1 else 0),
-            Bn - rng.getrandbits(64) * 2 - 1, rnd_words(rng, n) | (1 << (64 * n - 1)) | 1,
-            (rnd_words(rng, n) | (1 << (64 * (n - 1))) | 1) % Bn]
+    cand = [Bn - 1, Bn - 3, (1 << (WB * n - 1)) + 1, (1 << (WB * (n - 1))) + (1 if (odd or n == 1) else 0) + (2 if n == 1 else 0),
+            Bn - rng.getrandbits(WB) * 2 - 1, rnd_words(rng, n) | (1 << (WB * n - 1)) | 1,
+            (rnd_words(rng, n) | (1 << (WB * (n - 1))) | 1) % Bn]
     if not odd:
-        cand += [(1 << (64 * n - 1)), Bn - 2, (rnd_words(rng, n) | (1 << (64 * n - 3))) & ~1]
-    cand = [m for m in cand if m >= (1 << (64 * (n - 1))) and m < Bn and m >= 3 and (not odd or m % 2)]
+        cand += [(1 << (WB * n - 1)), Bn - 2, (rnd_words(rng, n) | (1 << (WB * n - 3))) & ~1]
+    cand = [m for m in cand if m >= (1 << (WB * (n - 1))) and m < Bn and m >= 3 and (not odd or m % 2)]
     rng.shuffle(cand)
     return cand[:k]
 
@@ -80,7 +100,7 @@ def below(rng, m):
 
 def cases_mod(rng, name, n, m):
     """operand tuples for the modular pairs, all satisfying the documented preconditions"""
-    Bn = 1 << (64 * n)
+    Bn = 1 << (WB * n)
     r = lambda: below(rng, m)
     if name == "zzAddMod":
         a = r()
@@ -118,8 +138,8 @@ def cases_mod(rng, name, n, m):
 
 def red_inputs(rng, name, n, m):
     """2n-word inputs of the reductions: multiples of the modulus and boundaries"""
-    Bn = 1 << (64 * n)
-    w = rng.getrandbits(64)
+    Bn = 1 << (WB * n)
+    w = rng.getrandbits(WB)
     mont = name in ("zzRedMont", "zzRedCrandMont")
     lim = m * Bn if mont else Bn * Bn
     c = [("0", 0), ("mod", m), ("2mod", 2 * m), ("4mod", 4 * m), ("w*mod", w * m), ("mod*mod", m * m), ("(B^n-1)*mod", (Bn - 1) * m),
@@ -141,13 +161,13 @@ def red_inputs(rng, name, n, m):
 
 def barr_corrections(a, m, n):
     """number of `a -= mod` steps that the Barrett reduction of the code needs for this input"""
-    mu = (1 << (128 * n)) // m
-    q = ((a >> (64 * (n - 1))) * mu) >> (64 * (n + 1))
-    M = 1 << (64 * (n + 1))
+    mu = (1 << (2 * WB * n)) // m
+    q = ((a >> (WB * (n - 1))) * mu) >> (WB * (n + 1))
+    M = 1 << (WB * (n + 1))
     return ((a % M - (q * m) % M) % M) // m
 
 
-def neg_inv64(m0):
+def neg_inv64(m0):   # -m0^{-1} mod B (wordNegInv)
     return (-pow(m0, -1, B)) % B
 
 
@@ -196,11 +216,11 @@ def gen_cmp_cases(ctx, thorough):
                 cases.append(("hexEqRev", "differ@%d" % i, ["s" + hexs(bb[::-1]), hs], None))
     # ww*
     for n in lens:
-        a = [rng.getrandbits(64) for _ in range(n)]
-        enc = lambda ws: "s" + ("".join(le(x, 8) for x in ws) if ws else "-")
+        a = [rng.getrandbits(WB) for _ in range(n)]
+        enc = lambda ws: "s" + ("".join(le(x, WB // 8) for x in ws) if ws else "-")
         var = [("equal", a, list(a))]
         for i in range(n):
-            for d in (1, B - 1, 1 << 63):
+            for d in (1, B - 1, 1 << (WB - 1)):
                 b = list(a); b[i] = (b[i] + d) % B
                 var.append(("differ@%d" % i, a, b))
             if i + 1 < n:
@@ -211,8 +231,8 @@ def gen_cmp_cases(ctx, thorough):
             cases.append(("wwCmp", key, [enc(x), enc(y), "n%d" % n], None))
         for m in sorted(set([0, 1, n // 2, max(n - 1, 0), n, n + 1, min(n + 3, 16)])):
             for hi in ("zero", "nz"):
-                x = [rng.getrandbits(64) for _ in range(n)]
-                y = x[:m] + [rng.getrandbits(64) for _ in range(max(0, m - n))]
+                x = [rng.getrandbits(WB) for _ in range(n)]
+                y = x[:m] + [rng.getrandbits(WB) for _ in range(max(0, m - n))]
                 y = y[:m]
                 if hi == "zero":
                     if n > m:
@@ -227,24 +247,24 @@ def gen_cmp_cases(ctx, thorough):
                         yy[j] = (yy[j] + delta) % B
                     cases.append(("wwCmp2", "n%s m hi=%s" % ("<" if n < m else ">" if n > m else "=", hi), [enc(xx), "n%d" % n, enc(yy), "n%d" % m], None))
         for key, x in [("zero", [0] * n), ("w", [7] + [0] * (n - 1) if n else []), ("gen", a)] + \
-                [("nonzero@%d" % i, [0] * i + [rng.choice([1, 1 << 63])] + [0] * (n - i - 1)) for i in range(n)]:
+                [("nonzero@%d" % i, [0] * i + [rng.choice([1, 1 << (WB - 1)])] + [0] * (n - i - 1)) for i in range(n)]:
             cases.append(("wwIsZero", key, [enc(x), "n%d" % n], None))
             for w in sorted(set([0, 7, x[0] if x else 0, (x[0] + 1) % B if x else 1, B - 1])):
                 cases.append(("wwCmpW", key, [enc(x), "n%d" % n, "w%d" % w], None))
                 cases.append(("wwIsW", key, [enc(x), "n%d" % n, "w%d" % w], None))
-        w = rng.getrandbits(64)
-        for key, x in [("rep", [w] * n)] + [("norep@%d" % i, [w] * i + [w ^ rng.choice([1, 1 << 63])] + [w] * (n - i - 1)) for i in range(n)]:
+        w = rng.getrandbits(WB)
+        for key, x in [("rep", [w] * n)] + [("norep@%d" % i, [w] * i + [w ^ rng.choice([1, 1 << (WB - 1)])] + [w] * (n - i - 1)) for i in range(n)]:
             for ww in (w, 0):
                 cases.append(("wwIsRepW", key, [enc(x), "n%d" % n, "w%d" % ww], None))
         # zzIsSumEq / zzIsSumWEq
         if True:
-            Bn = 1 << (64 * n)
+            Bn = 1 << (WB * n)
             for key, (x, y) in [("gen", (rnd_words(rng, n), rnd_words(rng, n))), ("carry", (Bn - 1, 1 if n else 0)), ("zero", (0, 0)),
                                 ("carrychain", (Bn - 1, Bn - 1))]:
                 s = x + y
-                for ck, c in [("sum", s % Bn if n else 0), ("sum+1", (s + 1) % Bn if n else 0), ("sum^hi", (s ^ (1 << (64 * n - 1))) % Bn if n else 0)]:
+                for ck, c in [("sum", s % Bn if n else 0), ("sum+1", (s + 1) % Bn if n else 0), ("sum^hi", (s ^ (1 << (WB * n - 1))) % Bn if n else 0)]:
                     cases.append(("zzIsSumEq", key + ":" + ck + (":ovf" if s >= Bn else ""), ["s" + Wd(c, n), "s" + Wd(x, n), "s" + Wd(y, n), "n%d" % n], None))
-                w = rng.choice([0, 1, B - 1, rng.getrandbits(64)])
+                w = rng.choice([0, 1, B - 1, rng.getrandbits(WB)])
                 s = x + w
                 for ck, c in [("sum", s % Bn if n else 0), ("sum+1", (s + 1) % Bn if n else 0)]:
                     cases.append(("zzIsSumWEq", key + ":" + ck + (":ovf" if s >= Bn else ""), ["s" + Wd(c, n), "s" + Wd(x, n), "n%d" % n, "w%d" % w], None))
@@ -293,7 +313,15 @@ def gen_mod_cases(ctx, thorough):
                 continue
             ms = moduli(rng, n, odd=(name != "zzRedBarr" and name != "zzRedCrand"), crandall=cr, k=km)
             if name == "zzRedBarr":
-                ms = ms[:km - 1] + [(1 << (64 * (n - 1))) + 1 + (2 if n == 1 else 0)]   # small top word: estimate short by 2
+                ms = ms[:km - 1] + [(1 << (WB * (n - 1))) + 1 + (2 if n == 1 else 0)]   # small top word: estimate short by 2
+                if n >= 3:
+                    # C05 fix-11: mod = B^n - d, d ~ B^(n/2): after the first subtraction the top word a[n] is 2
+                    Bn_ = 1 << (WB * n)
+                    m11 = Bn_ - (math.isqrt(1 + 4 * Bn_) - 1) // 2
+                    a11 = ((B ** (n + 1)) - B) * (B ** (n - 1)) + B ** (n - 1) - 1
+                    mu11 = (1 << (2 * WB * n)) // m11
+                    cases.append((name, "barr:top-word-2", ["s" + Wd(a11, 2 * n), "s" + Wd(m11, n), "n%d" % n, "s" + Wd(mu11, n + 2),
+                                                            "z%d" % ((WB // 8) * (4 * n + 5))], n))
             for m in ms:
                 if name == "zzRedCrandMont" and m % 2 == 0:
                     continue
@@ -301,8 +329,8 @@ def gen_mod_cases(ctx, thorough):
                     if name == "zzRedCrand":
                         args = ["s" + Wd(a, 2 * n), "s" + Wd(m, n), "n%d" % n, "z8"]
                     elif name == "zzRedBarr":
-                        mu = (1 << (128 * n)) // m
-                        args = ["s" + Wd(a, 2 * n), "s" + Wd(m, n), "n%d" % n, "s" + Wd(mu, n + 2), "z%d" % (8 * (4 * n + 5))]
+                        mu = (1 << (2 * WB * n)) // m
+                        args = ["s" + Wd(a, 2 * n), "s" + Wd(m, n), "n%d" % n, "s" + Wd(mu, n + 2), "z%d" % ((WB // 8) * (4 * n + 5))]
                     else:
                         args = ["s" + Wd(a, 2 * n), "s" + Wd(m, n), "n%d" % n, "w%d" % neg_inv64(m % B), "z8"]
                     cases.append((name, key, args, n))
@@ -315,17 +343,17 @@ def gen_helper_cases(ctx):
     cases = []
     for n in [0, 1, 2, 3, 5, 8]:
         a, b = rnd_words(rng, n), rnd_words(rng, n)
-        for w in (0, B - 1, rng.getrandbits(64)):
+        for w in (0, B - 1, rng.getrandbits(WB)):
             cases.append(("zzSubAndW", "h", ["s" + Wd(b, n), "s" + Wd(a, n), "n%d" % n, "w%d" % w], None))
             cases.append(("zzAddAndW", "h", ["s" + Wd(b, n), "s" + Wd(a, n), "n%d" % n, "w%d" % w], None))
             cases.append(("zzAddW2", "h", ["s" + Wd(a, n), "n%d" % n, "w%d" % w], None))
-            cases.append(("zzAddW2", "h", ["s" + Wd((1 << (64 * n)) - 1, n), "n%d" % n, "w%d" % w], None))
+            cases.append(("zzAddW2", "h", ["s" + Wd((1 << (WB * n)) - 1, n), "n%d" % n, "w%d" % w], None))
             cases.append(("zzSubW2", "h", ["s" + Wd(a, n), "n%d" % n, "w%d" % w], None))
             cases.append(("zzSubW2", "h", ["s" + Wd(0, n), "n%d" % n, "w%d" % w], None))
             cases.append(("zzAddMulW", "h", ["s" + Wd(b, n), "s" + Wd(a, n), "n%d" % n, "w%d" % w], None))
             cases.append(("zzSubW", "h", ["s" + Wd(0, n), "s" + Wd(a, n), "n%d" % n, "w%d" % w], None))
         cases.append(("zzSub", "h", ["s" + Wd(0, n), "s" + Wd(a, n), "s" + Wd(b, n), "n%d" % n], None))
-        Bn_ = 1 << (64 * n)
+        Bn_ = 1 << (WB * n)
         for x_, y_ in ((a, b), (Bn_ - 1, 1 if n else 0), (Bn_ - 1, Bn_ - 1), (a, (Bn_ - a) % Bn_)):
             cases.append(("zzAdd", "h", ["s" + Wd(0, n), "s" + Wd(x_, n), "s" + Wd(y_, n), "n%d" % n], None))
             cases.append(("zzAdd2", "h", ["s" + Wd(x_, n), "s" + Wd(y_, n), "n%d" % n], None))
@@ -334,7 +362,7 @@ def gen_helper_cases(ctx):
         for w in (0, 1, B - 1):
             cases.append(("zzAddW", "h", ["s" + Wd(0, n), "s" + Wd(Bn_ - 1, n), "n%d" % n, "w%d" % w], None))
             cases.append(("zzAddW", "h", ["s" + Wd(0, n), "s" + Wd(a, n), "n%d" % n, "w%d" % w], None))
-        for w in (1, 2, 3, (1 << 32), (1 << 32) - 1, rng.randrange(1, 1 << 32)):
+        for w in (1, 2, 3, (1 << (WB // 2)), (1 << (WB // 2)) - 1, rng.randrange(1, 1 << (WB // 2))):
             cases.append(("zzModW2", "h", ["s" + Wd(a, n), "n%d" % n, "w%d" % w], None))
             cases.append(("zzModW2", "h", ["s" + Wd(Bn_ - 1, n), "n%d" % n, "w%d" % w], None))
         cases.append(("zzSub2", "h", ["s" + Wd(b, n), "s" + Wd(a, n), "n%d" % n], None))
@@ -353,9 +381,9 @@ CORPUS = os.path.join(VERIF, "gen", "c14_corpus.txt")
 
 
 def corpus_cases():
-    """witnesses of defects found earlier (known_findings.txt `fixed:` lines of C14) and seeds"""
+    """witnesses of defects found earlier (known_findings.txt `fixed:` lines of C14) and seeds (64-bit words)"""
     out = []
-    if os.path.exists(CORPUS):
+    if WB == 64 and os.path.exists(CORPUS):
         for line in open(CORPUS):
             line = line.strip()
             if not line or line.startswith("#"):
@@ -375,7 +403,7 @@ def sf_differs(line_out, nres):
     if " | " not in line_out:
         return True
     s, f = line_out.split(" | ", 1)
-    if nres is None:
+    if True:   # the harness prints only the result words of a reduction
         return s != f
     ss, ff = s.split(), f.split()
     if len(ss) != len(ff) or ss[0] != ff[0]:
@@ -471,7 +499,7 @@ def stepv_lines(ctx, exe, x, W, thorough):
                 v = list(tb[:ln]); v[i] ^= rng.choice([1, 128]); variants.append(v)
             for v in variants:
                 full = v + [0] * 0
-                lines.append("stepv %s %s %s %s %s %d %s %d %d" % (kind, key, iv, data, hexs(full), ln, t, off, size))
+                lines.append("%s %s %s %s %s %s %d %s %d %d" % (opn("stepv"), kind, key, iv, data, hexs(full), ln, t, off, size))
     return lines
 
 
@@ -525,13 +553,13 @@ def to_cmp_line(name, args, ed):
         s = bytes.fromhex(args[1][1:])[:-1].decode()
         return "%s %s %s %s" % (name, ed, hx(args[0]), s or "-")
     if name in ("wwEq", "wwCmp"):
-        return "%s %s %s %s" % (name, ed, hx(args[0]), hx(args[1]))
+        return "%s %s %s %s" % (opn(name), ed, hx(args[0]), hx(args[1]))
     if name == "wwCmp2":
-        return "%s %s %s %s" % (name, ed, hx(args[0]), hx(args[2]))
+        return "%s %s %s %s" % (opn(name), ed, hx(args[0]), hx(args[2]))
     if name == "wwIsZero":
-        return "%s %s %s" % (name, ed, hx(args[0]))
+        return "%s %s %s" % (opn(name), ed, hx(args[0]))
     if name in ("wwCmpW", "wwIsW", "wwIsRepW"):
-        return "%s %s %s %s" % (name, ed, hx(args[0]), args[2][1:])
+        return "%s %s %s %s" % (opn(name), ed, hx(args[0]), args[2][1:])
     if re.match(r"u(16|32|64)C[TL]Z$", name):
         return "%s %s %s" % (name, ed, args[0][1:])
     return None
@@ -541,6 +569,83 @@ def replay_text(mode, line, what, nres=None):
     return "\n".join(["# property C14: %s" % what.replace("\n", " "),
                       "# replay with ./check C14 --replay <this file>",
                       "mode %s" % mode] + (["res %d" % nres] if nres is not None else []) + ["op %s" % line]) + "\n"
+
+
+def word_pass(ctx, wb, cfg, x, W, thorough, translator_error, have_cmp, drv_ok):
+    """all differential mechanisms for one word size: sf on the implementation, IR vs implementation,
+    Verify steps, hand models.  Returns dict(cases, ir_lines, sv_lines, mism, cmp_mism, sf_out, exe)."""
+    setw(wb)
+    tag = "" if wb == 64 else ":w32"
+    try:
+        exe = ctx.cc("harness/c14.c", cfg)
+        cases = corpus_cases() + gen_cmp_cases(ctx, thorough) + gen_mod_cases(ctx, thorough)
+        helper = gen_helper_cases(ctx)
+        if wb == 64:
+            ctx.cov["pairs_exercised"] = len(set(c[0] for c in cases))
+            cpc = {}
+            for c in cases:
+                k = c[0] + ":" + re.sub(r"@\d+", "@i", c[1])
+                cpc[k] = cpc.get(k, 0) + 1
+            ctx.cov["classes"] = len(cpc)
+            agg = {}
+            for k, v in cpc.items():
+                agg[k.split(":")[0]] = agg.get(k.split(":")[0], 0) + v
+            ctx.cov["cases_per_class"] = agg
+        # ---- B: safe vs fast on the implementation (all 33 pairs)
+        sf_lines = ["%s %s %s" % (opn("sf"), c[0], " ".join(c[2])) for c in cases]
+        sf_out, sf_err, rc = ctx.run_lines(exe, sf_lines)
+        sf_bad = []
+        if rc != 0 or len(sf_out) != len(sf_lines):
+            k = min(len(sf_out), len(sf_lines) - 1)
+            summ = [l for l in sf_err.split("\n") if "ERROR" in l or "SUMMARY" in l][:2]
+            sf_bad.append((k, sf_lines[k], "CRASH(rc=%d): %s" % (rc, " | ".join(summ))))
+        for i, o in enumerate(sf_out[:len(sf_lines)]):
+            if o == "bad-op" or sf_differs(o, cases[i][3]):
+                sf_bad.append((i, sf_lines[i], o))
+        ctx.cov["ops_safe_vs_fast" + tag] = len(sf_lines)
+        ctx.cov["ops_total"] = ctx.cov.get("ops_total", 0) + len(sf_lines)
+        seen_keys = set()
+        for i, line, o in sf_bad[:40]:
+            c = cases[i] if i < len(cases) else ("?", "?", [], None)
+            key = "safe!=fast:%s:%s%s" % (c[0], re.sub(r"@\d+", "@i", c[1]), tag)
+            if key in seen_keys:
+                continue
+            seen_keys.add(key)
+            ctx.violation(key, replay_text("sf" if wb == 64 else "sf32", line.split(" ", 1)[1],
+                                           "SAFE(%s) and FAST(%s) disagree on the same operands" % (c[0], c[0]), c[3]),
+                          True, "%s [%s]%s: safe | fast = %s" % (c[0], c[1], tag, o[:300]))
+        # ---- A: IR interpreter vs the real SAFE routines
+        mism, cmp_mism, sv_lines = [], [], []
+        ir_lines = ["%s %s %s" % (opn("ir"), c[0], " ".join(c[2])) for c in cases + helper]
+        if drv_ok and not translator_error:
+            try:
+                mism, c_out, l_out = ctx.diff_run(exe, ir_lines, "ir-vs-impl" + tag)
+                sv_lines = stepv_lines(ctx, exe, x, W, thorough)
+                m2, c2, l2 = ctx.diff_run(exe, sv_lines, "stepv-vs-impl" + tag)
+                mism += m2
+                ctx.cov["stepv_accept" + tag] = sum(1 for o in c2 if o == "1")
+                ctx.cov["stepv_reject" + tag] = sum(1 for o in c2 if o == "0")
+            except RuntimeError as e:
+                ctx.notes.append(str(e)[:300])
+                mism.append((-1, "driver", "", str(e)[:300]))
+        # ---- B (models): hand models of both editions vs implementation
+        if have_cmp and drv_ok:
+            cmp_lines = []
+            for c in cases:
+                for ed in ("safe", "fast"):
+                    l = to_cmp_line(c[0], c[2], ed)
+                    if l:
+                        cmp_lines.append(l)
+            if cmp_lines:
+                try:
+                    cmp_mism, _, _ = ctx.diff_run(exe, cmp_lines, "models-vs-impl" + tag)
+                except RuntimeError as e:
+                    ctx.notes.append(str(e)[:300])
+                    cmp_mism = [(-1, "driver", "", str(e)[:300])]
+        return {"cases": cases, "ir_lines": ir_lines, "sv_lines": sv_lines, "mism": mism, "cmp_mism": cmp_mism,
+                "sf_out": sf_out, "exe": exe}
+    finally:
+        setw(64)
 
 
 def run(ctx):
@@ -553,11 +658,11 @@ def run(ctx):
     diag = []
     if not translator_error:
         try:
-            diag = x.diagnose(funs, W)
+            diag = x.diagnose(funs, W) + ["[w32] " + d for d in x.diagnose(GEN32["funs"], GEN32["W"])]
         except Exception as e:
             diag = ["diagnose failed: %s" % e]
     have_cmp = os.path.exists(os.path.join(vcommon.LEAN, "Bee2V/C14/PropsCmp.lean"))
-    targets = ["Bee2V.C14.Props", "Bee2V.Gen.C14Obl"] + (["Bee2V.C14.PropsCmp"] if have_cmp else [])
+    targets = ["Bee2V.C14.Props", "Bee2V.Gen.C14Obl", "Bee2V.Gen.C14Obl32"] + (["Bee2V.C14.PropsCmp"] if have_cmp else [])
     if translator_error:
         proof_ok, log = False, "translator: " + translator_error
         # the driver (hand models + previous IR) is still needed for the correspondence of B
@@ -566,86 +671,20 @@ def run(ctx):
         proof_ok, log = ctx.prove(targets, PROPS)
     failed_routines = []
     if not proof_ok and not translator_error:
-        obl = open(os.path.join(vcommon.LEAN, "Bee2V/Gen/C14Obl.lean")).read().split("\n")
-        for f, ln in re.findall(r"error: (\S*C14Obl\.lean):(\d+)", log):
-            m = re.match(r"theorem ct_(\w+) ", obl[int(ln) - 1]) if int(ln) - 1 < len(obl) else None
-            if m:
-                failed_routines.append(m.group(1))
+        for fn_, sfx in (("C14Obl", ""), ("C14Obl32", "[w32]")):
+            obl = open(os.path.join(vcommon.LEAN, "Bee2V/Gen/%s.lean" % fn_)).read().split("\n")
+            for f, ln in re.findall(r"error: (\S*%s\.lean):(\d+)" % fn_, log):
+                m = re.match(r"theorem ct_(\w+) ", obl[int(ln) - 1]) if int(ln) - 1 < len(obl) else None
+                if m:
+                    failed_routines.append(m.group(1) + sfx)
         failed_routines = sorted(set(failed_routines))
-    exe = ctx.cc("harness/c14.c", "asan")
-
-    # ---- cases
-    cases = corpus_cases() + gen_cmp_cases(ctx, thorough) + gen_mod_cases(ctx, thorough)
-    helper = gen_helper_cases(ctx)
-    pair_names = sorted(set(c[0] for c in cases))
-    ctx.cov["pairs_exercised"] = len(pair_names)
-    ctx.cov["cases_per_class"] = {}
-    for c in cases:
-        k = c[0] + ":" + re.sub(r"@\d+", "@i", c[1])
-        ctx.cov["cases_per_class"][k] = ctx.cov["cases_per_class"].get(k, 0) + 1
-    ctx.cov["classes"] = len(ctx.cov["cases_per_class"])
-    if len(ctx.cov["cases_per_class"]) > 150:
-        # keep the evidence file readable
-        agg = {}
-        for k, v in ctx.cov["cases_per_class"].items():
-            agg[k.split(":")[0]] = agg.get(k.split(":")[0], 0) + v
-        ctx.cov["cases_per_class"] = agg
-
-    # ---- B: safe vs fast on the implementation (all 33 pairs)
-    sf_lines = ["sf %s %s" % (c[0], " ".join(c[2])) for c in cases]
-    sf_out, sf_err, rc = ctx.run_lines(exe, sf_lines)
-    sf_bad = []
-    if rc != 0 or len(sf_out) != len(sf_lines):
-        k = min(len(sf_out), len(sf_lines) - 1)
-        summ = [l for l in sf_err.split("\n") if "ERROR" in l or "SUMMARY" in l][:2]
-        sf_bad.append((k, sf_lines[k], "CRASH(rc=%d): %s" % (rc, " | ".join(summ))))
-    for i, o in enumerate(sf_out[:len(sf_lines)]):
-        if o == "bad-op" or sf_differs(o, cases[i][3]):
-            sf_bad.append((i, sf_lines[i], o))
-    ctx.cov["ops_safe_vs_fast"] = len(sf_lines)
-    ctx.cov["ops_total"] = ctx.cov.get("ops_total", 0) + len(sf_lines)
-    seen_keys = set()
-    for i, line, o in sf_bad[:40]:
-        c = cases[i] if i < len(cases) else ("?", "?", [], None)
-        key = "safe!=fast:%s:%s" % (c[0], re.sub(r"@\d+", "@i", c[1]))
-        if key in seen_keys:
-            continue
-        seen_keys.add(key)
-        ctx.violation(key, replay_text("sf", line[3:], "SAFE(%s) and FAST(%s) disagree on the same operands" % (c[0], c[0]), c[3]),
-                      True, "%s [%s]: safe | fast = %s" % (c[0], c[1], o[:300]))
-
-    # ---- A: IR interpreter vs the real SAFE routines
-    mism = []
     drv_ok = os.path.exists(ctx.driver())
-    ir_cases = cases + helper
-    ir_lines = ["ir %s %s" % (c[0], " ".join(c[2])) for c in ir_cases]
-    sv_lines = []
-    if drv_ok and not translator_error:
-        try:
-            mism, c_out, l_out = ctx.diff_run(exe, ir_lines, "ir-vs-impl")
-            sv_lines = stepv_lines(ctx, exe, x, W, thorough)
-            m2, c2, l2 = ctx.diff_run(exe, sv_lines, "stepv-vs-impl")
-            mism += m2
-            ctx.cov["stepv_accept"] = sum(1 for o in c2 if o == "1")
-            ctx.cov["stepv_reject"] = sum(1 for o in c2 if o == "0")
-        except RuntimeError as e:
-            ctx.notes.append(str(e)[:300])
-            mism.append((-1, "driver", "", str(e)[:300]))
-    # ---- B (models): hand models of both editions vs implementation
-    cmp_lines = []
-    cmp_mism = []
-    if have_cmp and drv_ok:
-        for c in cases:
-            for ed in ("safe", "fast"):
-                l = to_cmp_line(c[0], c[2], ed)
-                if l:
-                    cmp_lines.append(l)
-        if cmp_lines:
-            try:
-                cmp_mism, _, _ = ctx.diff_run(exe, cmp_lines, "models-vs-impl")
-            except RuntimeError as e:
-                ctx.notes.append(str(e)[:300])
-                cmp_mism = [(-1, "driver", "", str(e)[:300])]
+
+    r64 = word_pass(ctx, 64, "asan", x, W, thorough, translator_error, have_cmp, drv_ok)
+    r32 = word_pass(ctx, 32, "w32", x, GEN32.get("W"), thorough, translator_error or (None if GEN32 else "no w32 IR"), have_cmp, drv_ok)
+    exe, cases, ir_lines, sv_lines, sf_out = r64["exe"], r64["cases"], r64["ir_lines"], r64["sv_lines"], r64["sf_out"]
+    mism = r64["mism"] + r32["mism"]
+    cmp_mism = r64["cmp_mism"] + r32["cmp_mism"]
 
     # ---- KWP functional + C: valgrind on the Release build
     kw_lines, kw_expect = kwp_lines(ctx, exe)
